@@ -9,7 +9,8 @@ Model: `NoKVModel/Client/Perc.lean` (region stores: the Percolator handlers of p
 and `NoKVModel/Client/TwoPC.lean` (the client of raftstore/client/client.go as a step machine;
 environment steps = network delivers / drops / loses the reply of / answers NotLeader to / re-
 delivers an RPC, the client is restarted with the same versions, any resolver runs
-CheckTxnStatus on the primary with any current ts and ResolveLock with what it learned).  The
+CheckTxnStatus on the primary with any current ts and ResolveLock with what it learned, any other
+transaction prewrites any of the keys or is rolled back on it — `foreign` / `foreignAbort`).  The
 theorems quantify over every transaction (any number of keys and regions, any primary, any order
 of the regions), every initial store without traces of the transaction, and every finite sequence
 of such steps — i.e. every reachable state; no bound.
